@@ -237,6 +237,10 @@ func c15Transfer(c *h.Ctx, id string, r *rand.Rand) {
 		}
 		if s.Error() == nil {
 			got = append(got, s.Content()...)
+			// "any subsequent calls to Content() will return data after the previous call": an
+			// application that reads again in the same callback (tools/catchunks does on every
+			// 1000th segment) must get nothing twice
+			got = append(got, s.Content()...)
 		}
 		return true
 	})
